@@ -1,7 +1,10 @@
 from common import COMMON_ASSUME
 
-_ASBUILT = [("D41", "absent body: required not enforced / zero value validated"), ("D43", "scalar and untyped body schemas decode into a map"),
-            ("D44", "JSON null validated as the zero map / slice"), ("LF", "library: number under untyped schema, uniqueItems by literal")]
+# as-built variants of the model that must violate PropertyHolds (non-vacuity; one per defect / finding, see notes/G02.md)
+_ASBUILT = [("D41", "absent body: `required` not enforced, the zero value of the target is validated"),
+            ("D43", "scalar and untyped body schemas are decoded into a map (never bind; a default panics)"),
+            ("D44", "a JSON null body is validated as the empty object / array it decodes into"),
+            ("LF", "go-openapi/validate as observed: number under an untyped schema refused, uniqueItems by literal text")]
 
 PROP = dict(
     module="BodyBind",
@@ -12,12 +15,42 @@ PROP = dict(
         dict(module="MCBodyBind", cfg="MCBodyBind_asbuilt_%s.cfg" % n, expect_violation="PropertyHolds", timeout=600)
         for n, _ in _ASBUILT
     ],
-    level_text="placeholder",
-    level_note="placeholder",
-    design_ref="DESIGN.md 6 item 4 (growth); notes/G02.md",
+    level_text="BodyBind.tla gives an abstract grammar of JSON documents (numbers with their literal form, symbolic huge numbers, strings as "
+               "code points, objects with duplicate names) and of Swagger 2.0 schemas (type, properties/required/additionalProperties/"
+               "min-maxProperties, items/min-maxItems/uniqueItems, min-maxLength/pattern/format, minimum/maximum/exclusive*/multipleOf, enum, "
+               "$ref), the declarative relation Valid(S, v) written keyword by keyword from draft 4, an independently structured second "
+               "checker Violations(S, v) that also yields the offending paths, a faithful model of untypedParamBinder.Bind `case body` / "
+               "UntypedRequestBinder.Bind / HasBody / JSONConsumer (one operator per branch: presence, default, default-on-EOF, target type, "
+               "decode errors, validation) and the property Allowed(p, rq, outcome). TLC checks model |= property over schema kind x required x "
+               "default x transport x syntax class x document x trailing bytes, checks Valid <=> Violations = {} over a generated family of "
+               "schemas x documents and a table of hand-computed verdicts, and validates every request the driver serves through "
+               "middleware.NewContext(doc, api, nil).RoutesHandler(nil) (real Swagger documents, real bytes, instrumented consumer and handler) "
+               "against Allowed: handler ran iff Valid, exactly the decoded value with number literals intact, else 422 naming the parameter / an "
+               "offending field, default / required on a missing body, consumer called at most once, no panic.",
+    level_note="bounded exhaustive at model level; the real code is bound by trace validation of the executed requests only; Valid is the oracle "
+               "for the external go-openapi/validate library too (its deviations are findings D45-D48); numbers beyond int64 / float64 and "
+               "multiples of symbolic huge numbers are allow-both (named deviations)",
+    design_ref="DESIGN.md 6 item 4 (growth step); notes/G02.md",
     driver="g02",
     trace=dict(module="TraceBodyBind", cfg="TraceBodyBind.cfg"),
-    rule="placeholder",
+    rule="case = one body parameter declaration (name, required, default, schema tree; optionally next to a required query parameter) rendered "
+         "to a Swagger 2.0 document ($ref'd definitions where marked) + up to 120 requests; event = per request: handler ran, status, the value "
+         "found in the handler's map abstracted back into the grammar (number literals as bytes, dynamic type), calls of the instrumented "
+         "consumer, error entries (code, dotted path), recovered panic. Exhaustive part: 14 schema kinds x required x default x {no body, "
+         "Content-Length: 0, empty chunked body, blank bodies; recorder and real TCP server} x 26 documents x {known length, chunked, spaced, "
+         "\\u-escaped, trailing blanks / garbage / second document, charset parameter, wire} x 42 non-JSON texts x truncations; 26 leaf schemas "
+         "(every keyword) at 4 positions (body, property, items, additionalProperties) x 50 scalar literals incl. boundary values, 1.0 / 1e0 "
+         "forms, non-ASCII and astral characters, 2^63 / 1e30 / 2^53+1 / 1e400; 14 array schemas x all arrays of <=2 values of a 15-value pool; "
+         "18 object schemas x ~150 objects (also nested, also $ref); a 9-property schema with one valid document, 46 single defects and their "
+         "pairs. Seeded part: 500 / 8000 random schemas of depth <=3 with 25 / 40 documents shaped after the schema with 0-40% noise. "
+         "Non-trivial: the handler received a value or the request was refused with an error entry; distinct by hash.",
     exhaustive=True,
-    assumptions=COMMON_ASSUME + [],
+    assumptions=COMMON_ASSUME + [
+        "declared defaults satisfy the declared schema and contain no duplicate names; default numbers are short decimals",
+        "pattern and format are exercised with the named patterns (^a, ^[0-9]+$, b, ^.$) and with `date` on texts whose day is 01..28 or that are clearly not dates",
+        "bounds, multipleOf and enum members are decimals with at most two fraction digits and magnitude below 10^4; huge numbers are the nine symbolic "
+        "literals of BigInfo, whose multiples are not decided (allow-both)",
+        "member names and parameter names are ASCII without dots; number formats (int32, float) and property-level defaults are outside the space",
+        "whether a text is JSON (syntax classes bad / trunc) is asserted by the generator from curated non-JSON texts and proper prefixes of rendered documents",
+    ],
 )
